@@ -3,8 +3,8 @@
 (*  generalised eigenproblem.  Only statements; every proof is `exact`.    *)
 (*                                                                         *)
 (*  Model variants (Pencil_Model.v):  *_shipped = tree before fix F9,      *)
-(*  *_repaired = after F9 (NPE, LPP: current code; LLTSA: current code     *)
-(*  until F25 lands), lltsa_fixed = after F9 and F25.                      *)
+(*  *_repaired = after F9 (NPE, LPP: CURRENT code), lltsa_fixed = after    *)
+(*  F9 and F25, lltsa_centred = after F9, F25 and F42 (CURRENT code).      *)
 (*  X : D x N feature matrix (samples = columns), W : list of stored       *)
 (*  entries of the sparse N x N matrix, sym2 M = M + M^T.                  *)
 (*  All statements with F are for EVERY field F (so also for Qc, the       *)
@@ -28,11 +28,22 @@ Print Assumptions npe_problem.
 
 Theorem lltsa_problem :
   forall (F : Type) (Fo : FieldOps F) (Ff : IsField F) D N (X : mat F) (W : sparse F),
-    indices_ok N W ->
-    is_pencil D (XMXt N X (sym2 (dense_of W))) (XMXt N X (Jn N)) (lltsa_fixed X N W) /\
-    solver_sees D (XMXt N X (sym2 (dense_of W))) (XMXt N X (Jn N)) (lltsa_fixed X N W).
-Proof. exact (fun F Fo Ff D N X W H => conj (lltsa_problem_gen D N X W H) (lltsa_seen_gen D N X W H)). Qed.
+    of_nat N <> 0 -> indices_ok N W ->
+    is_pencil D (XMXt N (centred X N) (sym2 (dense_of W))) (XMXt N X (Jn N)) (lltsa_centred X N W) /\
+    solver_sees D (XMXt N (centred X N) (sym2 (dense_of W))) (XMXt N X (Jn N)) (lltsa_centred X N W).
+Proof.
+  exact (fun F Fo Ff D N X W HN H => conj (lltsa_problem_gen D N X W HN H) (lltsa_seen_gen D N X W HN H)).
+Qed.
 Print Assumptions lltsa_problem.
+
+(* on centred features the lhs is the property's X M X^T for every M whose rows and columns sum
+   to zero (an alignment matrix annihilates constants) *)
+Theorem lltsa_lhs_is_property_lhs :
+  forall (F : Type) (Fo : FieldOps F) (Ff : IsField F) N (X : mat F) (W : sparse F) i j,
+    zero_sums N (dense_of W) ->
+    XMXt N (centred X N) (sym2 (dense_of W)) i j = XMXt N X (sym2 (dense_of W)) i j.
+Proof. exact (@lltsa_lhs_is_XMXt). Qed.
+Print Assumptions lltsa_lhs_is_property_lhs.
 
 Theorem lpp_problem :
   forall (F : Type) (Fo : FieldOps F) (Ff : IsField F) D N (X : mat F) (L : sparse F) (dv : vec F),
@@ -42,14 +53,18 @@ Theorem lpp_problem :
 Proof. exact (fun F Fo Ff D N X L dv H => conj (lpp_problem_gen D N X L dv H) (lpp_seen_gen D N X L dv H)). Qed.
 Print Assumptions lpp_problem.
 
-Example problem_nonvacuous : indices_ok 2 wW /\ indices_ok 2 aW /\ indices_ok 4 lW.
-Proof. exact (conj wW_ok (conj aW_ok lW_ok)). Qed.
+Example problem_nonvacuous :
+  indices_ok 2 wW /\ indices_ok 2 aW /\ indices_ok 4 lW /\ zero_sums 2 (dense_of aW) /\ @of_nat Qc QcOps 2 <> 0.
+Proof.
+  exact (conj wW_ok (conj aW_ok (conj lW_ok (conj aW_zero_sums (Qc_of_nat_neq0 2 (Nat.neq_succ_0 1)))))).
+Qed.
 
 Theorem returned_tables_symmetric :
   forall (F : Type) (Fo : FieldOps F) D N (X : mat F) (W : sparse F) (dv : vec F),
     msym D (p_lhs (npe_repaired X N W)) /\ msym D (p_rhs (npe_repaired X N W)) /\
     msym D (p_lhs (lltsa_repaired X N W)) /\ msym D (p_rhs (lltsa_repaired X N W)) /\
     msym D (p_lhs (lltsa_fixed X N W)) /\ msym D (p_rhs (lltsa_fixed X N W)) /\
+    msym D (p_lhs (lltsa_centred X N W)) /\ msym D (p_rhs (lltsa_centred X N W)) /\
     msym D (p_lhs (lpp_repaired X N W dv)) /\ msym D (p_rhs (lpp_repaired X N W dv)).
 Proof. exact (@repaired_tables_symmetric). Qed.
 Print Assumptions returned_tables_symmetric.
@@ -100,7 +115,7 @@ Print Assumptions lpp_shipped_sees_diagonal.
 Example shipped_nonvacuous : @two Qc QcOps <> 0 /\ indices_ok 2 wW.
 Proof. exact (conj Qc_two_neq0 wW_ok). Qed.
 
-(* ---------- 3. finding F25: LLTSA after F9 still subtracts (X1)(X1)^T/N from lhs ---------- *)
+(* ---------- 3. regression F25: LLTSA after F9 still subtracted (X1)(X1)^T/N from lhs ---------- *)
 Theorem lltsa_f9_lhs_is :
   forall (F : Type) (Fo : FieldOps F) (Ff : IsField F) D N (X : mat F) (W : sparse F),
     indices_ok N W ->
@@ -118,7 +133,7 @@ Print Assumptions lltsa_f9_lhs_is.
 Theorem lltsa_f9_refuted :
   exists N D (X : mat Qc) (W : sparse Qc),
     indices_ok N W /\ zero_sums N (dense_of W) /\
-    ~ is_pencil D (XMXt N X (sym2 (dense_of W))) (XMXt N X (Jn N)) (lltsa_repaired X N W).
+    ~ is_pencil D (lltsa_lhs N X W) (lltsa_rhs N X) (lltsa_repaired X N W).
 Proof. exact (ex_intro _ 2%nat (ex_intro _ 1%nat (ex_intro _ aX (ex_intro _ aW lltsa_f9_refuted_w)))). Qed.
 Print Assumptions lltsa_f9_refuted.
 
@@ -144,17 +159,37 @@ Proof.
                                  end Hf)).
 Qed.
 
+(* ---------- 3b. regression F42: between F25 and F42 lhs was the UNCENTRED X (W+W^T) X^T ---------- *)
+Theorem lltsa_f25_lhs_is :
+  forall (F : Type) (Fo : FieldOps F) (Ff : IsField F) D N (X : mat F) (W : sparse F),
+    indices_ok N W ->
+    is_pencil D (XMXt N X (sym2 (dense_of W))) (XMXt N X (Jn N)) (lltsa_fixed X N W).
+Proof. exact (@lltsa_f25_pencil_gen). Qed.
+Print Assumptions lltsa_f25_lhs_is.
+
+Theorem lltsa_f25_refuted :
+  exists N D (X : mat Qc) (W : sparse Qc),
+    indices_ok N W /\ ~ is_pencil D (lltsa_lhs N X W) (lltsa_rhs N X) (lltsa_fixed X N W).
+Proof. exact (ex_intro _ 2%nat (ex_intro _ 1%nat (ex_intro _ aX (ex_intro _ sW lltsa_f25_refuted_w)))). Qed.
+Print Assumptions lltsa_f25_refuted.
+
+Theorem lltsa_f25_translation_refuted :
+  exists (c : vec Qc),
+    p_lhs (lltsa_fixed (shift_by aX c) 2 sW) 0%nat 0%nat <> p_lhs (lltsa_fixed aX 2 sW) 0%nat 0%nat.
+Proof. exact lltsa_f25_translation_refuted_w. Qed.
+Print Assumptions lltsa_f25_translation_refuted.
+
+(* CURRENT code: translation invariant for every sparse matrix W *)
 Theorem lltsa_translation_invariant :
   forall (F : Type) (Fo : FieldOps F) (Ff : IsField F) N (X : mat F) (W : sparse F) (c : vec F) i j,
-    indices_ok N W -> zero_sums N (dense_of W) -> of_nat N <> 0 ->
-    p_lhs (lltsa_fixed (shift_by X c) N W) i j = p_lhs (lltsa_fixed X N W) i j /\
-    p_rhs (lltsa_fixed (shift_by X c) N W) i j = p_rhs (lltsa_fixed X N W) i j.
-Proof. exact (@lltsa_fixed_translation_invariant). Qed.
+    indices_ok N W -> of_nat N <> 0 ->
+    p_lhs (lltsa_centred (shift_by X c) N W) i j = p_lhs (lltsa_centred X N W) i j /\
+    p_rhs (lltsa_centred (shift_by X c) N W) i j = p_rhs (lltsa_centred X N W) i j.
+Proof. exact (@lltsa_centred_translation_invariant). Qed.
 Print Assumptions lltsa_translation_invariant.
 
-Example lltsa_translation_nonvacuous :
-  indices_ok 2 aW /\ zero_sums 2 (dense_of aW) /\ @of_nat Qc QcOps 2 <> 0.
-Proof. exact (conj aW_ok (conj aW_zero_sums (Qc_of_nat_neq0 2 (Nat.neq_succ_0 1)))). Qed.
+Example lltsa_translation_nonvacuous : indices_ok 2 sW /\ @of_nat Qc QcOps 2 <> 0.
+Proof. exact (conj sW_ok (Qc_of_nat_neq0 2 (Nat.neq_succ_0 1))). Qed.
 
 (* ---------- 4. column selection and the oracle contract ---------- *)
 Theorem select_cols_in_range :
@@ -179,10 +214,10 @@ Print Assumptions npe_solution.
 
 Theorem lltsa_solution :
   forall (F : Type) (Fo : FieldOps F) (Ff : IsField F) D d N (X : mat F) (W : sparse F) (V P : mat F) lam,
-    indices_ok N W -> (d <= D)%nat ->
-    oracle_contract D (p_lhs (seen (lltsa_fixed X N W))) (p_rhs (seen (lltsa_fixed X N W))) V lam ->
+    of_nat N <> 0 -> indices_ok N W -> (d <= D)%nat ->
+    oracle_contract D (p_lhs (seen (lltsa_centred X N W))) (p_rhs (seen (lltsa_centred X N W))) V lam ->
     select_cols D d V = Ok P ->
-    gen_eig_solution D d (XMXt N X (sym2 (dense_of W))) (XMXt N X (Jn N)) P lam.
+    gen_eig_solution D d (XMXt N (centred X N) (sym2 (dense_of W))) (XMXt N X (Jn N)) P lam.
 Proof. exact (@Pencil_Proof.lltsa_solution). Qed.
 Print Assumptions lltsa_solution.
 
@@ -199,12 +234,13 @@ Example solution_nonvacuous :
   (indices_ok 2 eW /\ (1 <= 2)%nat /\
    oracle_contract 2 (p_lhs (seen (npe_repaired eX 2 eW))) (p_rhs (seen (npe_repaired eX 2 eW))) eV elam /\
    exists P, select_cols 2 1 eV = Ok P) /\
-  (indices_ok 4 lW /\ (1 <= 1)%nat /\
-   oracle_contract 1 (p_lhs (seen (lltsa_fixed lX 4 lW))) (p_rhs (seen (lltsa_fixed lX 4 lW))) lV llam) /\
+  (@of_nat Qc QcOps 4 <> 0 /\ indices_ok 4 lW /\ (1 <= 1)%nat /\
+   oracle_contract 1 (p_lhs (seen (lltsa_centred lX 4 lW))) (p_rhs (seen (lltsa_centred lX 4 lW))) lV llam) /\
   (oracle_contract 2 (p_lhs (seen (lpp_repaired eX 2 eW wdv))) (p_rhs (seen (lpp_repaired eX 2 eW wdv))) eV elam).
 Proof.
   exact (conj (conj eW_ok (conj (le_S 1 1 (le_n 1)) (conj e_contract (ex_intro _ _ eq_refl))))
-              (conj (conj lW_ok (conj (le_n 1) e_contract_lltsa)) e_contract_lpp)).
+              (conj (conj (Qc_of_nat_neq0 4 (Nat.neq_succ_0 3)) (conj lW_ok (conj (le_n 1) e_contract_lltsa)))
+                    e_contract_lpp)).
 Qed.
 
 (* per-column sign is free, and is the only freedom inside a one-dimensional eigenspace *)
@@ -297,7 +333,7 @@ Print Assumptions spec_decision_sound.
 
 Theorem model_output_meets_spec :
   forall m N D Xl W dvl lhs rhs,
-    run_construct VF25 m N D Xl W dvl = Ok (lhs, rhs) ->
+    run_construct VF42 m N D Xl W dvl = Ok (lhs, rhs) ->
     spec_construct_b m N D Xl W dvl lhs rhs = true.
 Proof. exact model_meets_spec. Qed.
 Print Assumptions model_output_meets_spec.
@@ -310,5 +346,5 @@ Proof. exact model_in_range. Qed.
 Print Assumptions model_stays_in_range.
 
 Example model_nonvacuous :
-  exists lhs rhs, run_construct VF25 NPE 2 2 [[qz 1; qz 1]; [qz 0; qz 1]] wW [] = Ok (lhs, rhs).
+  exists lhs rhs, run_construct VF42 NPE 2 2 [[qz 1; qz 1]; [qz 0; qz 1]] wW [] = Ok (lhs, rhs).
 Proof. exact e_run. Qed.
